@@ -82,6 +82,9 @@ fn layout(depth: usize, rel: &str) -> Layout {
         "cwd-inside-base" => (base.join("inner"), "..".to_string()),
         _ => (scratch.p("other"), base.to_string_lossy().to_string()),
     };
+    // entries named like the shells in the process working directory: a bare shell name is looked up on PATH, never here
+    let _ = std::fs::create_dir_all(cwd.join("sh"));
+    let _ = std::fs::write(cwd.join("bash"), "not a program\n");
     Layout { scratch, base, cwd, base_arg, src_dir }
 }
 
